@@ -2,12 +2,15 @@ package mediumsim
 
 import (
 	"fmt"
+	"math"
+	"strings"
 
 	"github.com/advancedclimatesystems/gonnx/onnx"
 	"google.golang.org/protobuf/proto"
 
 	"verifsim/mb"
 	"verifsim/medium"
+	"verifsim/refdec"
 	"verifsim/rng"
 	"verifsim/val"
 )
@@ -341,6 +344,8 @@ func (g *gen) families12() {
 	// an initializer that is also listed in graph.input (older IR style) with a declaration that disagrees with the
 	// tensor's own dims / element type: the weight is what its TensorProto says
 	g.signatureFamily()
+	g.foreignFieldFamily()
+	g.metadataFamily()
 	// U. byte-level single-fault spaces of small weight-only files, exhaustively
 	for _, b := range weightOnly {
 		g.singleFaultSweep("single-fault-weight-file", b, "bytes", 1)
@@ -578,6 +583,130 @@ func (g *gen) signatureFamily() {
 					data, _ := proto.MarshalOptions{Deterministic: true}.Marshal(mp)
 					g.run(&Case{Family: "initializer-vs-signature", Base: fmt.Sprintf("%s raw=%v declared %s in graph.%s", dt, raw, d.note, place), Reader: "bytes", ZipFail: -1, Data: data}, true)
 				}
+			}
+		}
+	}
+}
+
+// foreignFieldFamily: a tensor of a supported element type whose values sit ONLY in a typed field that belongs to
+// another element type (a DOUBLE tensor carrying float_data, a FLOAT tensor carrying double_data, an INT64 tensor
+// carrying int32_data ...): nothing is stored for the declared type, so the count cannot match; a loader that helps
+// itself from the foreign field loads different values.
+func (g *gen) foreignFieldFamily() {
+	r := rng.New(rng.Mix(g.cfg.Seed, 0xf0e1))
+	fields := []string{"float_data", "double_data", "int32_data", "int64_data", "uint64_data", "string_data"}
+	for _, dt := range val.Supported {
+		for _, field := range fields {
+			for _, dims := range [][]int64{{3}, {2, 2}, {}, {1}} {
+				if !g.mine() || g.stop {
+					continue
+				}
+				n := 1
+				for _, d := range dims {
+					n *= int(d)
+				}
+				tp := &onnx.TensorProto{Name: "t", DataType: int32(dt), Dims: append([]int64{}, dims...)}
+				for i := 0; i < n; i++ {
+					// values that do not survive a conversion between the floating types, plus ordinary ones
+					switch field {
+					case "float_data":
+						tp.FloatData = append(tp.FloatData, []float32{0.1, 16777216, -3.5, 1e-40}[(i+r.Intn(4))%4])
+					case "double_data":
+						tp.DoubleData = append(tp.DoubleData, []float64{16777217, 1e300, 0.1, -1.0000000000000002}[(i+r.Intn(4))%4])
+					case "int32_data":
+						tp.Int32Data = append(tp.Int32Data, []int32{1, -1, 300, 70000}[(i+r.Intn(4))%4])
+					case "int64_data":
+						tp.Int64Data = append(tp.Int64Data, []int64{1, -1, 1 << 40, 255}[(i+r.Intn(4))%4])
+					case "uint64_data":
+						tp.Uint64Data = append(tp.Uint64Data, []uint64{1, 1 << 63, 255, 65536}[(i+r.Intn(4))%4])
+					case "string_data":
+						tp.StringData = append(tp.StringData, []byte("1.5"))
+					}
+				}
+				if _, other := refdecTypedLens(tp); other == 0 {
+					continue // the field is the declared type's own carrier
+				}
+				holderModels(tp).each(func(holder string, data []byte) {
+					g.run(&Case{Family: "payload-in-foreign-field", Base: fmt.Sprintf("%s/%s/%v/%s", dt, field, dims, holder), Reader: "bytes", ZipFail: -1, Data: data}, true)
+				})
+			}
+		}
+	}
+}
+
+// refdecTypedLens: (elements in the declared type's own typed field, elements in all other typed fields).
+func refdecTypedLens(tp *onnx.TensorProto) (own, other int) {
+	return refdec.TypedLens(tp)
+}
+
+// metadataFamily: the same well-formed weights under everything a model file says ABOUT itself - who produced it,
+// versions, documentation, metadata properties, graph names. None of it may change how a weight is decoded.
+func (g *gen) metadataFamily() {
+	r := rng.New(rng.Mix(g.cfg.Seed, 0x3e7a))
+	producers := []string{"skl2onnx", "onnxmltools", "pytorch", "tf2onnx", "keras2onnx", "onnx-caffe2", "CNTK", "paddle2onnx", "MATLAB Deep Learning Toolbox Converter for ONNX Model Format",
+		"onnx.quantize", "onnxruntime.transformers", "sklearn-onnx", "OnnxMLTools", "lightgbm", "xgboost", "catboost", "Microsoft.ML", "WinMLTools", "coremltools", "onnx-example", "", "gonnx", "\x00", "skl2onnx\n"}
+	type variant struct {
+		note string
+		f    func(mp *onnx.ModelProto)
+	}
+	var vs []variant
+	for _, p := range producers {
+		p := p
+		vs = append(vs, variant{"producer_name=" + fmt.Sprintf("%q", p), func(mp *onnx.ModelProto) { mp.ProducerName = p }})
+	}
+	for _, pv := range []string{"0.0.1", "1.13.1", "2.0", "1.7.0+cu101", ""} {
+		pv := pv
+		vs = append(vs, variant{"producer_version=" + pv, func(mp *onnx.ModelProto) { mp.ProducerName = "pytorch"; mp.ProducerVersion = pv }})
+	}
+	for _, iv := range []int64{0, 1, 2, 3, 4, 5, 6, 7, 8, 9, 10, 11, 1 << 32, -1} {
+		iv := iv
+		vs = append(vs, variant{fmt.Sprintf("ir_version=%d", iv), func(mp *onnx.ModelProto) { mp.IrVersion = iv }})
+	}
+	for _, d := range []string{"ai.onnx", "ai.onnx.ml", "com.microsoft", "org.pytorch", "quantized", "float16", "double"} {
+		d := d
+		vs = append(vs, variant{"domain=" + d, func(mp *onnx.ModelProto) { mp.Domain = d }})
+	}
+	for _, mv := range []int64{1, 2, 1 << 40, -1} {
+		mv := mv
+		vs = append(vs, variant{fmt.Sprintf("model_version=%d", mv), func(mp *onnx.ModelProto) { mp.ModelVersion = mv }})
+	}
+	for _, kv := range [][2]string{{"precision", "float32"}, {"precision", "fp16"}, {"dtype", "float"}, {"quantized", "true"}, {"endianness", "big"}, {"byte_order", "big"}, {"layout", "column_major"}, {"weights", "transposed"}, {"onnx.infer", "strict"}, {"", ""}} {
+		kv := kv
+		vs = append(vs, variant{"metadata_props " + kv[0] + "=" + kv[1], func(mp *onnx.ModelProto) {
+			mp.MetadataProps = []*onnx.StringStringEntryProto{{Key: kv[0], Value: kv[1]}}
+		}})
+	}
+	for _, ds := range []string{"converted to float32", "big-endian", "fp16", strings.Repeat("x", 5000)} {
+		ds := ds
+		vs = append(vs, variant{"doc_strings", func(mp *onnx.ModelProto) { mp.DocString = ds; mp.Graph.DocString = ds; mp.Graph.Initializer[0].DocString = ds }})
+	}
+	for _, gn := range []string{"", "main_graph", "torch-jit-export", "skl2onnx", "float16_graph", "quantized"} {
+		gn := gn
+		vs = append(vs, variant{"graph name " + gn, func(mp *onnx.ModelProto) { mp.Graph.Name = gn }})
+	}
+	vs = append(vs, variant{"second opset import ai.onnx.ml 2", func(mp *onnx.ModelProto) {
+		mp.OpsetImport = append(mp.OpsetImport, &onnx.OperatorSetIdProto{Domain: "ai.onnx.ml", Version: 2})
+	}})
+	vs = append(vs, variant{"opset domain spelled ai.onnx", func(mp *onnx.ModelProto) { mp.OpsetImport[0].Domain = "ai.onnx" }})
+	for _, dt := range []val.DT{val.Float32, val.Float64, val.Int64, val.Int8, val.Uint64, val.Bool, val.Int32} {
+		for _, raw := range []bool{true, false} {
+			for _, v := range vs {
+				if !g.mine() || g.stop {
+					continue
+				}
+				x := GenVal(r, dt, []int{2, 3})
+				if dt == val.Float64 {
+					// values that do not survive float32
+					x.Bits[0] = math.Float64bits(1e300)
+					x.Bits[1] = math.Float64bits(-1.0000000000000002)
+					x.Bits[2] = math.Float64bits(16777217)
+				}
+				tp := mb.TensorProto(&mb.Init{Name: "t", V: x, Raw: raw})
+				gp := &onnx.GraphProto{Name: "g", Initializer: []*onnx.TensorProto{tp}, Output: []*onnx.ValueInfoProto{{Name: "t"}}}
+				mp := &onnx.ModelProto{IrVersion: 7, Graph: gp, OpsetImport: []*onnx.OperatorSetIdProto{{Version: 13}}}
+				v.f(mp)
+				data, _ := proto.MarshalOptions{Deterministic: true}.Marshal(mp)
+				g.run(&Case{Family: "model-metadata", Base: fmt.Sprintf("%s raw=%v %s", dt, raw, v.note), Reader: "bytes", ZipFail: -1, Data: data}, true)
 			}
 		}
 	}
